@@ -288,13 +288,16 @@ func SubscribeWithReplay[T any](
 	}
 
 	// Load last offset for this subscription
-	lastOffset, _ := subStore.LoadOffset(ctx, subscriptionID)
+	lastOffset, err := subStore.LoadOffset(ctx, subscriptionID)
+	if err != nil {
+		return fmt.Errorf("load subscription offset: %w", err)
+	}
 
 	// Replay missed events
 	var eventType = reflect.TypeOf((*T)(nil)).Elem()
 	// Use consistent type naming with EventType() function
 	typeName := eventType.String()
-	err := bus.Replay(ctx, lastOffset, func(stored *StoredEvent) error {
+	err = bus.Replay(ctx, lastOffset, func(stored *StoredEvent) error {
 		// Apply upcasts if available
 		eventData, eventTypeName := stored.Data, stored.Type
 		if bus.upcastRegistry != nil {
@@ -335,6 +338,12 @@ func SubscribeWithReplay[T any](
 		bus.storeMu.RLock()
 		offset := bus.lastOffset
 		bus.storeMu.RUnlock()
+
+		// Nothing has been persisted by this bus yet (e.g. the append
+		// failed): keep the saved position instead of rewinding it
+		if offset == OffsetOldest {
+			return
+		}
 
 		subStore.SaveOffset(ctx, subscriptionID, offset)
 	}
